@@ -13,6 +13,10 @@ For the ecocredit family every entry names
 ECO_GEN_Q = [("credits_g", 32, 20), ("market_g", 56, 25), ("expiry_g", 32, 20), ("basket_g", 32, 25), ("basket2_g", 16, 20), ("basket3_g", 16, 20), ("roles_g", 24, 20), ("bridge_g", 32, 20), ("params_g", 32, 20), ("sellerfee_g", 12, 15), ("buyerfee_g", 12, 15), ("wide_g", 24, 25)]
 ECO_GEN_T = [("credits_g", 300, 30), ("market_g", 500, 30), ("expiry_g", 300, 25), ("basket_g", 300, 30), ("basket2_g", 150, 25), ("basket3_g", 150, 25), ("roles_g", 200, 25), ("bridge_g", 300, 25), ("params_g", 300, 25), ("sellerfee_g", 100, 20), ("buyerfee_g", 100, 20), ("wide_g", 250, 30)]
 
+# generation configurations without baskets: half of their behaviours run with block times and sell
+# order expirations that are not aligned to whole seconds (harness/names.go: MarketTime)
+FINE_CFGS = {"market_g", "expiry_g", "sellerfee_g", "buyerfee_g"}
+
 PROFILES = [
     {"unit": "1000000", "render": 0},   # whole credits, plain decimals
     {"unit": "250000", "render": 1},    # quarter credits, mixed renderings
